@@ -38,6 +38,21 @@ def ensure_deps() -> None:
         )
         sys.path.insert(0, DEPS)
         import hypothesis  # noqa: F401
+    try:
+        import atheris  # noqa: F401
+    except ImportError:
+        # coverage-guided parts (sophtverif/fuzz.py) are optional: without atheris they report "atheris_not_available"
+        try:
+            os.makedirs(DEPS, exist_ok=True)
+            subprocess.check_call(
+                [sys.executable, "-m", "pip", "install", "--no-index", "--find-links",
+                 "/opt/veriftools/wheels", "--target", DEPS, "atheris"],
+                stdout=sys.stderr, stderr=sys.stderr,
+            )
+            if DEPS not in sys.path:
+                sys.path.insert(0, DEPS)
+        except Exception:  # noqa: BLE001
+            pass
 
 
 def main() -> int:
